@@ -370,6 +370,9 @@ def dispatch (op : String) (args : List String) : Option String :=
   | "backupdest", [path, isdir] => do
       let p ← (if path == "none" then some none else (decBytes path).map some)
       pure (match backupDest p (← decBool isdir) with | .defaultDir => "default" | .inDir _ => "dir" | .file _ => "file")
+  -- finalize(): which old ref names the update-ref batch deletes (renames = the ref-map pairs, refs = names before the run)
+  | "deletedold", [renames, refs] => do
+      pure (encList (deletedOldNames (← decPairs renames) (← decList refs)))
   -- opts.rs parse_args: the whole command line (bad = the --path-regex values the regex crate refuses)
   | "cliargs", [bad, argv] => do
       pure (renderOutcome (Cli.parseArgs (← decList bad) (← decList argv)))
